@@ -78,10 +78,7 @@ func startSys(cfg *config.Config, bes []*vh.Backend, listen bool) (*Sys, error) 
 	s := &Sys{Cfg: cfg, LB: lb, Handler: h, Backends: bes}
 	if listen {
 		s.Srv = createHTTPServer(cfg, h)
-		ln, err := net.Listen("tcp", "127.0.0.1:0")
-		if err != nil {
-			return nil, err
-		}
+		ln := vh.ListenLoopback()
 		s.Ln = ln
 		s.Addr = ln.Addr().String()
 		go s.Srv.Serve(ln)
